@@ -317,6 +317,17 @@ func TestVerifC08(t *testing.T) {
 	add(c08Scenario{Name: "late joiner: 1 old + 1 new message parked, key concurrent", Senders: 1, Msgs: 2, Arrivals: [][]string{{"s0/1", "s0/2"}}, KeyBefore: []bool{false}, Window: 4, AnnAfter: 1})
 	add(c08Scenario{Name: "late joiner: new message first, then the old one, key concurrent", Senders: 1, Msgs: 2, Arrivals: [][]string{{"s0/2", "s0/1"}}, KeyBefore: []bool{false}, Window: 4, AnnAfter: 1})
 	add(c08Scenario{Name: "late joiner: 1 old + 1 new message, key before", Senders: 1, Msgs: 2, Arrivals: [][]string{{"s0/1", "s0/2"}}, KeyBefore: []bool{true}, Window: 4, AnnAfter: 1})
+	// a long history before the announcement: 40 messages that can never be opened here are parked in front of the
+	// two that can (more than any batch limit a flush of the per-device cache might have)
+	{
+		var labels []string
+		for i := 1; i <= 42; i++ {
+			labels = append(labels, fmt.Sprintf("s0/%d", i))
+		}
+		v := c08Build(seed, c08Scenario{Name: "late joiner: 40 old + 2 new messages parked, key concurrent", Senders: 1, Msgs: 42, Arrivals: [][]string{labels}, KeyBefore: []bool{false}, Window: 4, AnnAfter: 40})
+		v.Bound = 1
+		scs = append(scs, v)
+	}
 	add(c08Scenario{Name: "1 message, key concurrent, cancel", Senders: 1, Msgs: 1, Arrivals: [][]string{{"s0/1"}}, KeyBefore: []bool{false}, Window: 4, Cancel: true})
 	bound, budget := 2, 6*time.Minute
 	if vrep.Thorough() {
